@@ -443,7 +443,22 @@ func checkMod10(c *Ctx, r *Report) {
 		r.Analysed(key)
 		ws, why := liftWeightedSum(c, fd, p, paramObjs(p, fd)[0])
 		if ws == nil {
-			r.Undecided("S-MOD10", key, c.pos(fd.Pos()), why)
+			// not the two-loop weighted sum the lifting knows: the add-on has only 5 digits, fold all 100000 strings
+			bad := ""
+			for n := 0; n < 100000 && bad == ""; n++ {
+				str := fmt.Sprintf("%05d", n)
+				res, err := c.rpfCall(fd, p, []*Val{vstr(str)}, &rpf{unroll: 100})
+				if err != nil {
+					bad = "?" + why + "; and the body does not fold: " + err.Error()
+					break
+				}
+				d := func(i int) int64 { return int64(str[i] - '0') }
+				want := (3*(d(0)+d(2)+d(4)) + 9*(d(1)+d(3))) % 10
+				if len(res) != 1 || res[0].K != VInt || res[0].I != want {
+					bad = fmt.Sprintf("extensionChecksum(%q) folds to %v, the EAN-5 check value (weights 3,9,3,9,3, modulo 10) is %d", str, res, want)
+				}
+			}
+			reportFold(r, c, "S-MOD10", key, fd.Pos(), bad)
 		} else {
 			ok := len(ws.problems) == 0 && len(ws.weights) == 2 && ws.weights[1] == 3 && ws.weights[2] == 9 && ws.retKind == "pos"
 			r.Check(ok, "S-MOD10", key, c.pos(fd.Pos()), fmt.Sprintf("weights by start offset from the right %v (standard: 3 for the 1st/3rd/5th digit, 9 for the 2nd/4th), result form %q (standard: sum %% 10), problems %v", ws.weights, ws.retKind, ws.problems))
